@@ -48,7 +48,7 @@ class RefAbort(BaseException):
 CV = [contextvars.ContextVar("verif_cv0", default=0), contextvars.ContextVar("verif_cv1", default=0)]
 
 EXC = {
-    "FE": FE, "OOBData": asynkit.OOBData,
+    "FE": FE, "OOBData": asynkit.OOBData, "KI": KeyboardInterrupt, "SE": SystemExit,
     "InvalidState": asyncio.InvalidStateError, "RT.other": RuntimeError, "StopIteration": StopIteration,
     "E1": E1, "E2": E2, "BE": BE, "Cancelled": asyncio.CancelledError, "GenExit": GeneratorExit,
     "SyncAbort": ak_coro.SynchronousAbort, "StopAsync": StopAsyncIteration,
@@ -69,6 +69,10 @@ def cname(e: BaseException) -> str:
         return "BE"
     if t is FE:
         return "FE"
+    if t is KeyboardInterrupt:
+        return "KI"
+    if t is SystemExit:
+        return "SE"
     if isinstance(e, (ak_coro.SynchronousAbort, RefAbort)):
         return "SyncAbort"
     if isinstance(e, asyncio.CancelledError):
@@ -324,7 +328,7 @@ def phase(c) -> str:
 
 # ---- random programs -------------------------------------------------------------------
 
-THROWABLE = ["E1", "E2", "BE", "Cancelled", "GenExit", "E1", "E2", "BE", "Cancelled", "GenExit", "FE", "OOBData"]
+THROWABLE = ["E1", "E2", "BE", "Cancelled", "GenExit", "E1", "E2", "BE", "Cancelled", "GenExit", "FE", "OOBData", "KI", "SE"]
 
 
 def gen_prog(rng, depth=0, budget=None, allow_fut=False, catches=None, p_await=0.3, counter=None,
